@@ -27,9 +27,10 @@ pub fn variant(f: usize, v: usize) -> String {
     let prev = FILES[(f + 2) % 3];
     match v {
         4 => format!("include \"{prev}.td\"\nclass K{x};\nclass {x}4 : K{prev};\n"),
-        0 => format!("class K{x};\nclass {x}0;\n"),
+        // (an anonymous def with a field of its own: its generated name shows in hover)
+        0 => format!("class K{x};\nclass {x}0;\ndef {{ int depth{x} = 1; }}\n"),
         1 => format!("include \"{next}.td\"\nclass K{x};\nclass {x}1 : K{next};\n"),
-        2 => format!("// moved\n// down\ninclude \"{next}.td\"\nclass K{x};\ndef {x}2 : K{next};\n"),
+        2 => format!("// moved\n// down\ninclude \"{next}.td\"\nclass K{x};\ndef {x}2 : K{next};\ndef : K{x} {{ int deep{x} = 2; }}\n"),
         _ => format!("class K{x};\ndef {x}3 : Missing;\n"),
     }
 }
@@ -170,7 +171,7 @@ impl Engine for C07 {
         format!(
             "every history of <= {} operations over 33 operations (Edit(file, variant) for 3 files x 5 text variants keeping the root; Root(file); Disk(file, variant) = a non-root file changes on disk and the root is re-selected) \
              and every history of exactly {} operations over 12 base operations (Edit to plain / include-next / include-previous, Root), starting from root a, all files plain; \
-             variants: plain / includes the next file (a->b->c->a, so cycles arise) / same with the include statement moved down two lines / a faulty def / includes the PREVIOUS file at the same byte range as variant 1 (only the path differs); \
+             variants: plain (with an anonymous def that has a field) / includes the next file (a->b->c->a, so cycles arise) / same with the include statement moved down two lines / a faulty def / includes the PREVIOUS file at the same byte range as variant 1 (only the path differs); \
              after the last operation of every history (every history is a prefix of longer ones, so every step of every history is compared) the full query transcript of the live host \
              equals that of a fresh host given only the current texts and root. states = distinct (root, variants) configurations reached; transitions = operations applied; non-trivial = histories with an include present at some point.",
             tier.pick(3, 4),
